@@ -65,7 +65,7 @@ func c19Run(r *Run, reg string, depth, shard, shards int) {
 	tB := append([]byte{}, tA...)
 	tB[0] ^= 0xFF // differs only in the first byte
 	tC := append([]byte{}, tA...)
-	tC[31] ^= 0xFF // differs only in the last byte
+	tC[31] ^= 0xFF                                  // differs only in the last byte
 	tShort := pad32(bytes.Repeat([]byte{0xA5}, 20)) // a 20-byte remote token, as EVM tokens are; also queried in its short spelling
 	addrX, addrY := distinct32(0xA0), distinct32(0xA1)
 	u := QUniverse{
@@ -238,7 +238,6 @@ func joinMax(xs []string, n int) string {
 	}
 	return s
 }
-
 
 // c19Enforced: C19 speaks about registries -- adding creates an entry, duplicates and
 // removals of missing entries are rejected. Whether a threshold update, a disable that
